@@ -48,6 +48,28 @@ fn observe(mode: &str, chars: &[Vec<u8>], neighbours: &[Vec<u8>]) -> Value {
         Ok(t) => t,
         Err(m) => return json!({"result": "panic", "msg": m, "text": [], "marked": false, "printable_ok": false, "parse_ok": false, "matches_orig": false, "neighbour_matches": 0}),
     };
+    let first = judge_text(mode, &text, &line, &with_nl, neighbours);
+    // second path by which scrut writes expectation text: the canonical rendering of an existing `equal`
+    // expectation (used when documents are updated); only possible for lines that are valid UTF-8
+    let second = match String::from_utf8(line.clone()) {
+        // lines that end like a modifier group are C08's subject (known findings there), not judged here
+        Ok(l) if l.ends_with(')') => json!({"result": "skip"}),
+        Ok(l) => {
+            let maker = ExpectationMaker::new(RuleRegistry::default());
+            match guarded(|| maker.parse(&format!("{l} (equal)")).map(|e| e.to_expression_string(&esc))) {
+                Ok(Ok(t2)) => judge_text(mode, &t2, &line, &with_nl, neighbours),
+                Ok(Err(_)) => json!({"result": "skip"}),
+                Err(m) => json!({"result": "panic", "msg": m, "text": [], "marked": false, "printable_ok": false, "parse_ok": false, "matches_orig": false, "neighbour_matches": 0}),
+            }
+        }
+        Err(_) => json!({"result": "skip"}),
+    };
+    let mut o = first;
+    o["render"] = second;
+    o
+}
+
+fn judge_text(mode: &str, text: &str, line: &[u8], with_nl: &[u8], neighbours: &[Vec<u8>]) -> Value {
     let printable_ok = if mode == "ascii" {
         text.bytes().all(|b| (0x20..=0x7e).contains(&b))
     } else {
@@ -55,15 +77,15 @@ fn observe(mode: &str, chars: &[Vec<u8>], neighbours: &[Vec<u8>]) -> Value {
     };
     let marked = text.ends_with(" (escaped)");
     let maker = ExpectationMaker::new(RuleRegistry::default());
-    let (parse_ok, matches_orig, nb, kind_ok, first_nb) = match guarded(|| maker.parse(&text)) {
+    let (parse_ok, matches_orig, nb, kind_ok, first_nb) = match guarded(|| maker.parse(text)) {
         Ok(Ok(e)) => {
             let (kind, _, _, _) = e.unmake();
-            let m = e.matches(&with_nl);
+            let m = e.matches(with_nl);
             let mut first = String::new();
             let nb = neighbours.iter().filter(|n| {
                 let mut n2 = (*n).clone();
                 n2.push(b'\n');
-                let hit = **n != line && e.matches(&n2);
+                let hit = n.as_slice() != line && e.matches(&n2);
                 if hit && first.is_empty() { first = format!("{:?}", n); }
                 hit
             }).count();
@@ -186,11 +208,12 @@ pub fn sweep(args: &[String]) {
             Guarded::Ok(mut rec) => {
                 let o = rec["obs"].clone();
                 // keep the file small: only records that fail something are written in full
-                let ok = o["printable_ok"] == json!(true) && o["parse_ok"] == json!(true) && o["matches_orig"] == json!(true) && o["neighbour_matches"] == json!(0);
+                let good = |x: &Value| x["result"] == json!("skip") || (x["printable_ok"] == json!(true) && x["parse_ok"] == json!(true) && x["matches_orig"] == json!(true) && x["neighbour_matches"] == json!(0));
+                let ok = good(&o) && good(&o["render"]);
                 rec["id"] = json!(id);
                 rec["ev"] = json!("Sweep");
                 if ok {
-                    rec["obs"] = json!({"result": "ok", "marked": o["marked"], "printable_ok": true, "parse_ok": true, "matches_orig": true, "neighbour_matches": 0, "text": [], "msg": ""});
+                    rec["obs"] = json!({"result": "ok", "marked": o["marked"], "printable_ok": true, "parse_ok": true, "matches_orig": true, "neighbour_matches": 0, "text": [], "msg": "", "render": {"result": "skip"}});
                 }
                 w.write(&rec);
             }
